@@ -144,7 +144,7 @@ func genC18(e *emitter, tier string) {
 		b, _ := proto.Marshal(mp)
 		return b
 	}
-	dimsSet := [][]int64{{}, {0}, {-1}, {2, -2}, {-2, -2}, {-4, -1}, {-1, 2, -2}, {0, -3}, {-1, -1, -1, -4}, {4}, {2, 2}, {3, 3}, {1 << 40}, {1 << 62, 4}, {2, 2, 1}, {1, 1, 4}}
+	dimsSet := [][]int64{{}, {0}, {-1}, {-1, 0}, {0, -1}, {3, -1, 0}, {-1, 0, 2}, {0, 0}, {-1, 4}, {2, -1}, {-1, -1}, {0, 4}, {2, -2}, {-2, -2}, {-4, -1}, {-1, 2, -2}, {0, -3}, {-1, -1, -1, -4}, {4}, {2, 2}, {3, 3}, {1 << 40}, {1 << 62, 4}, {2, 2, 1}, {1, 1, 4}}
 	for ti := 0; ti < 3; ti++ {
 		for _, d := range dimsSet {
 			d := d
